@@ -10,9 +10,9 @@ CONSTANTS NameSets,       \* sets of subsystem names (integers)
           DimChoices,     \* dimensions a subsystem may have
           Emit, FullLayoutMax
 
-QuickNameSets == {{2, 5}, {1, 4, 9}}
+QuickNameSets == {{2, 5}, {1, 4, 9}, {-1, 0}}        \* names are arbitrary integers: zero and negative ones included
 FourNameSets == {{0, 3, 6, 7}}
-ThoroughNameSets == {{2, 5}, {1, 4, 9}, {0, 3, 6, 7}}
+ThoroughNameSets == {{2, 5}, {1, 4, 9}, {0, 3, 6, 7}, {-1, 0}, {-2, 0, 3}}
 
 VARIABLES names, dims, order, tree
 vars == <<names, dims, order, tree>>
